@@ -304,16 +304,17 @@ def check(prop, tier="quick", seed=0, repo="/repo", jobs=None, only=None, verbos
     # --- bounded search for a dependence on the machine representation of the inputs (Python ints / integer arrays instead of
     #     floats): the proofs are over the reals and cannot see it.  Reported only where the same numbers pass as floats.
     typed_records = None
-    if num_ids and not only:
+    if (num_ids or numeric_only) and not only:
         typed_ids = [o.id for o in obs if o.id in set(num_ids) and o.tier != "internal"]    # internal contracts take RESULTS of code as inputs
-        typed_run = run_numeric(prop, tier, seed, repo, typed_ids, 2 if tier == "quick" else 6, "typed") if typed_ids else {"results": {}, "points": 0}
+        typed_ids += [o.id for o in numeric_only]
+        typed_run = run_numeric(prop, tier, seed, repo, typed_ids, 6 if tier == "quick" else 16, "typed") if typed_ids else {"results": {}, "points": 0}
         if "error" in typed_run:
             checker_errors.append((None, ["typed-input search failed to run: " + typed_run["error"]]))
         else:
             typed_records = {"obligations": len(typed_run["results"]), "points_each": typed_run.get("points"),
                              "representation": "Python int / integer arrays", "failing": 0,
                              "degenerate_points": sum(info.get("degenerate", 0) for info in typed_run["results"].values())}
-            ob_by_id = {o.id: o for o in obs}
+            ob_by_id = {o.id: o for o in list(obs) + list(numeric_only)}
             for oid, info in typed_run["results"].items():
                 if info.get("failed_points"):
                     typed_records["failing"] += 1
